@@ -84,7 +84,13 @@ fn worker(path: &str, start: usize, end: usize) {
         }
       }
     }
-    writeln!(out, "{}", json!({"op": "end", "pid": pid, "idx": idx})).unwrap();
+    // under the sanitizer build (bin/check sets ASAN_OPTIONS) the end of a
+    // program says so: it ran to its end without a report
+    if std::env::var_os("ASAN_OPTIONS").is_some() {
+      writeln!(out, "{}", json!({"op": "end", "pid": pid, "idx": idx, "asan": true})).unwrap();
+    } else {
+      writeln!(out, "{}", json!({"op": "end", "pid": pid, "idx": idx})).unwrap();
+    }
     out.flush().unwrap();
   }
 }
